@@ -618,6 +618,57 @@ func run(r *hx.Run) error {
 		r.Count("case:rawfuzz")
 	}
 	g.flush()
+	// 5. round 5: what the emulator ANSWERS — `rp <op>` lines carry the bytes written to the pty (DA1, DA2, DSR 5/6 incl. the
+	// pending-wrap column, DECRQM for every mode of decrqm() and unknown ones); the driver computes the same bytes from the
+	// translated bodies (Model/EmuReply.lean replyOf on Gen/TermBodies.lean)
+	{
+		rg := g.rng.Fork(0x5e91)
+		nrep := 300
+		if r.Thorough {
+			nrep = 3000
+		}
+		known := []string{"1", "2", "3", "4", "5", "6", "7", "8", "25", "1000", "1002", "1003", "1006", "1007", "1049", "2004"}
+		asked := append([]string{"2027", "0", "9", "12", "2026", "65535", "65536", "1;2", "-", "7:1", "-3"}, known...)
+		for c := 0; c < nrep; c++ {
+			w, h := rg.Range(1, 12), rg.Range(1, 6)
+			var ops []string
+			for k := rg.Intn(4); k > 0; k-- {
+				if rg.Bool() {
+					ops = append(ops, emuh.Csi("?h", gen.Pick(rg, known)))
+				} else {
+					ops = append(ops, emuh.Csi("?l", gen.Pick(rg, known)))
+				}
+			}
+			for k := rg.Intn(w + 2); k > 0; k-- {
+				ops = append(ops, emuh.Pr("x"))
+			}
+			if rg.Chance(1, 3) {
+				ops = append(ops, emuh.Csi("H", fmt.Sprintf("%d;%d", rg.Range(0, h+1), rg.Range(0, w+1))))
+			}
+			for k := 1 + rg.Intn(4); k > 0; k-- {
+				switch rg.Intn(6) {
+				case 0:
+					ops = append(ops, "rp "+emuh.Csi("c", gen.Pick(rg, []string{"-", "0", "1"})))
+					r.Count("reply:DA1")
+				case 1:
+					ops = append(ops, "rp "+emuh.Csi(">c", gen.Pick(rg, []string{"-", "0"})))
+					r.Count("reply:DA2")
+				case 2:
+					ops = append(ops, "rp "+emuh.Csi("n", gen.Pick(rg, []string{"5", "6", "6", "6", "-", "0", "7", "5;6", "6:1"})))
+					r.Count("reply:DSR")
+				default:
+					ops = append(ops, "rp "+emuh.Csi("?$p", gen.Pick(rg, asked)))
+					r.Count("reply:DECRQM")
+				}
+				if rg.Chance(1, 4) {
+					ops = append(ops, emuh.Pr("y"))
+				}
+			}
+			g.jobs = append(g.jobs, emuh.Job{ID: fmt.Sprintf("reply-%d", c), W: w, H: h, Ops: ops})
+			r.Count("case:replies")
+		}
+		g.flush()
+	}
 	r.Note("hypothesis_violations", g.hypViol)
 	r.Note("hangs", g.hangs)
 	r.Note("panics", g.panics)
